@@ -197,6 +197,10 @@ def gen_case(r, version):
         gen.build_gfa2(r, {"names": H.POOL["S"], "nseg": (2, 4), "headers": False, "shuffle": False,
                             "comments": False, "groups": True})
     for l in doc["lines"]:
+        if l[0] in "OU" and l[1][0] != "*" and gen.chance(r, 0.6) and not any(t[0] == "q9" for t in l[2]):
+            l[2].append(["q9", gen.choice(r, ["A", "J"]), gen.choice(r, ["x", "y"])])
+            if l[2][-1][1] == "J":
+                l[2][-1][2] = gen.choice(r, ["[1, 2]", "[0.5]", "{}"])
         if l[0] == "S":
             seq = l[1][1] if version == "gfa1" else l[1][2]
             st_.slen[l[1][0]] = doc["slen"].get(l[1][0], 8)
@@ -212,6 +216,10 @@ def gen_case(r, version):
         names = st_.model.names()
         if x < 0.12:
             ops.append(["unused_name"])
+        elif x < 0.2 and version == "gfa1" and st_.model.missing_links() and names:
+            # the link a path is waiting for, carrying an ID which is already in use
+            _p, (f, fo, t, to, ov) = st_.model.missing_links()[0]
+            ops.append(["collide_add", "L\t%s\t%s\t%s\t%s\t%s\tID:Z:%s" % (f, fo, t, to, ov, gen.choice(r, sorted(names))), "cross_type_on_placeholder"])
         elif x < 0.4 and named:
             # collision attempts
             tgt = st_.model.recs[gen.choice(r, named)]
